@@ -301,6 +301,7 @@ class Check:
         self.extra = {}
         self.rule = ""
         self.known = load_known(pid)
+        self.vclasses = {}
 
     def add_tlc(self, r):
         self.states += r.states
@@ -321,6 +322,7 @@ class Check:
                 self.known_hits[k["id"]][1] += 1
                 return False
         self.violations.append((summary, replay))
+        self.vclasses[re.sub(r'[0-9]+', 'N', summary.split(' | ')[0])[:160]] = self.vclasses.get(re.sub(r'[0-9]+', 'N', summary.split(' | ')[0])[:160], 0) + 1
         return True
 
     def finish(self):
@@ -339,6 +341,8 @@ class Check:
             paths.append(path)
             print("VIOLATION property=%s replay=%s" % (self.pid, path))
             print("  " + summary[:600])
+        for c, n in sorted(self.vclasses.items(), key=lambda x: -x[1])[:25]:
+            print("  violation class x%d: %s" % (n, c))
         cov = {
             "states": self.states,
             "transitions": self.transitions,
